@@ -42,6 +42,8 @@ structure DSt where
   cp : List Nat                    -- leaves whose output only cloudpickle can serialise
   ckptMore : List Nat              -- further checkpointing nodes (flat graphs)
   fails2 : List Nat                -- leaves that raise in the resumed run (flat graphs)
+  clearAll : Bool                  -- `running` is cleared too (checkpoint / interrupt: the process is gone)
+  clearAll2 : Bool                 -- the same for the second recovery file
   kbd2 : List Nat
 
 def emptyFin (n : Nat) : FinDag :=
@@ -50,7 +52,7 @@ def emptyFin (n : Nat) : FinDag :=
 
 def DSt.init : DSt :=
   { n := 0, rc := RCfg.now, levels := [], cur := none, dirty := [], cut := none, keyAfterRun := true,
-    cp := [], ckptMore := [], fails2 := [], kbd2 := [] }
+    cp := [], ckptMore := [], fails2 := [], kbd2 := [], clearAll := true, clearAll2 := true }
 
 def setAt {α} (l : List α) (i : Nat) (v : α) (dflt : α) : List α :=
   let l' := if l.length ≤ i then l ++ List.replicate (i + 1 - l.length) dflt else l
@@ -314,12 +316,15 @@ def resumedDag (st : DSt) (c : LvlCut) : Dag :=
   { slots := dl.slots, down := fun i => c.l.down2.getD i [], starters := c.l.starters2,
     onExec := fun i => c.l.exec2.getD i false, fails := fun _ => false }
 
+def resumeStart (st : DSt) (comp : Nat → Bool) (d : Dag) (s : S) : RS :=
+  if st.clearAll then resumeFromC st.rc comp d s else resumeFromFailed st.rc comp d s
+
 /-- a level (and everything below it) whose composite answered from its cache: nothing runs -/
 partial def notrunTree (st : DSt) (cuts : List LvlCut) (lid : Nat) : List (Nat × RS × RS × String) :=
   match cuts.find? (fun (c : LvlCut) => c.l.id == lid) with
   | none => []
   | some c =>
-    let rs0 := resumeFromC st.rc (compSet st c.l) (resumedDag st c) c.s
+    let rs0 := resumeStart st (compSet st c.l) (resumedDag st c) c.s
     (lid, rs0, rs0, "notrun") :: (c.l.macros.map fun (p : Nat × Nat) => notrunTree st cuts p.2).flatten
 
 structure LvlRun where
@@ -347,7 +352,7 @@ partial def resumeTree (st : DSt) (cuts : List LvlCut) (lid : Nat) (envChanged :
       l.vlink.any (fun (x : Nat × Nat × Nat) => x.1 == i && !l.isMacro i && envChanged.getD x.2.2 false)
     let runWith : List Nat → LvlRun := fun macroDirty =>
       let fx : Fix := { dirty := fun i => st.dirty.contains i || envDirty i || macroDirty.contains i, off := st.n }
-      let rs0 := resumeFromC st.rc (compSet st l) d2 c.s
+      let rs0 := resumeStart st (compSet st l) d2 c.s
       let (rs, fin) := drive (·.s) (rstepF (fun i => st.fails2.contains i) fx Cfg.repaired d2)
         (fun s _ => st.kbd2.any (fun i => s.st i == St.failed)) false (fuelOf l.f.n) rs0 l.sched2 0 0
       let below : List (Nat × Nat × List (Nat × RS × RS × String)) := l.macros.map fun (p : Nat × Nat) =>
@@ -475,7 +480,7 @@ def runCase (st : DSt) : List String :=
           let sn2 := rs2.snapshot
           let d2 := resumedDag st c
           let d3 : Dag := { d2 with down := fun i => l.down3.getD i [], starters := l.starters3 }
-          let rs0 := resumeInit st.rc (compSet st l) d3 sn2.clearFlags
+          let rs0 := resumeInit st.rc (compSet st l) d3 (if st.clearAll2 then sn2.clearFlags else sn2.clearFailed)
           let fx3 : Fix := { dirty := fun _ => false, off := st.n }
           let (rs3, fin3) := drive (·.s) (rstep fx3 Cfg.repaired d3) (fun _ _ => false) false (fuelOf l.f.n) rs0 l.sched3 0 0
           let v3 : View := { st, outs := fun _ i => rs3.s.out i, args := fun _ i => rs3.s.args i, parentOf }
@@ -608,6 +613,9 @@ def step' (s : DSt) (ws : List String) : DSt × List String :=
   | "fails2" :: is => match nats is with
     | some is => ({ s with fails2 := is }, [])
     | none => (s, ["bad-op"])
+  | ["clear", a, b] => match parseBool a, parseBool b with
+    | some a, some b => ({ s with clearAll := a, clearAll2 := b }, [])
+    | _, _ => (s, ["bad-op"])
   | "kbd2" :: is => match nats is with
     | some is => ({ s with kbd2 := is }, [])
     | none => (s, ["bad-op"])
